@@ -74,8 +74,12 @@ m = {
    "add_only": True,
  },
  "engines": [
-   {"name": "symx", "path": "/verif/symx", "serves_properties": [c["property_id"] for c in checks if c["engine"] in ("symx", "symx+kani", "symx+mir2smt")],
-    "kind_free_text": "symbolic execution of momtrop's generic code by instantiating T: MomTropFloat with a term-building scalar; path conditions and goals decided by z3 (one CLI process per query)"},
+   {"name": "symx", "path": "/verif/symx", "serves_properties": [c["property_id"] for c in checks if "symx" in c["engine"]],
+    "kind_free_text": "symbolic execution of momtrop's generic code by instantiating T: MomTropFloat with a term-building scalar; path conditions and goals decided by z3 (one CLI process per query; z3 4.8.12 for real arithmetic, z3 5.1 for IEEE floating point); native replay of every counterexample through the same harness with T = f64"},
+   {"name": "kani-harness", "path": "/verif/kani-harness", "serves_properties": ["C03", "C04", "C05", "C12"],
+    "kind_free_text": "Kani 0.68 / CBMC 6.11 proof harnesses over the compiled table assembly (HashSet graph routines replaced by nondeterministic stubs) and over the Gamma-quantile wrapper (kernel replaced by an arbitrary f64)"},
+   {"name": "mir2smt", "path": "/verif/engines/mir2smt.py", "serves_properties": ["C05", "C12", "C20"],
+    "kind_free_text": "translation of loop-free MIR bodies (nightly -Zunpretty=mir of the current working tree) to SMT-LIB QF_FP / bit-vectors, decided by z3"},
  ],
  "checks": checks,
  "not_applicable": na,
